@@ -42,8 +42,14 @@ type (
 		name string
 		args []string
 	}
-	nBoom    struct{} // {{ boom() }} — a registered function whose callback returns an error
-	nParent  struct{} // {{ parent() }} — only inside a block body that overrides another definition
+	nImport     struct{ tmpl, as string } // {% import 'tmpl' as as %}
+	nFromImport struct {                  // {% from 'tmpl' import name [as alias] %}
+		tmpl, name, alias string
+	}
+	nCall    struct{ name string }      // {{ name() }} — a macro brought in by a from-import of this template
+	nModCall struct{ mod, name string } // {{ mod.name() }} — a macro of a module imported by this template
+	nBoom    struct{}                   // {{ boom() }} — a registered function whose callback returns an error
+	nParent  struct{}                   // {{ parent() }} — only inside a block body that overrides another definition
 	nInclude struct {
 		name                    nameExpr
 		with                    []withEntry
@@ -116,6 +122,18 @@ func printNodes(ns []node) string {
 			b.WriteString("{% macro " + n.name + "(" + strings.Join(n.params, ", ") + ") %}" + printNodes(n.body) + "{% endmacro %}")
 		case nMacroCall:
 			b.WriteString("{{ _self." + n.name + "(" + strings.Join(n.args, ", ") + ") }}")
+		case nImport:
+			b.WriteString("{% import " + q(n.tmpl) + " as " + n.as + " %}")
+		case nFromImport:
+			b.WriteString("{% from " + q(n.tmpl) + " import " + n.name)
+			if n.alias != n.name {
+				b.WriteString(" as " + n.alias)
+			}
+			b.WriteString(" %}")
+		case nCall:
+			b.WriteString("{{ " + n.name + "() }}")
+		case nModCall:
+			b.WriteString("{{ " + n.mod + "." + n.name + "() }}")
 		case nBoom:
 			b.WriteString("{{ boom() }}")
 		case nParent:
@@ -210,12 +228,15 @@ const (
 // (only the quirk switches read it).
 type scope struct {
 	vars    map[string]string
+	mods    map[string]string // variables that hold an imported module: variable name -> template whose macros it holds
 	local   map[string]bool
 	loopIdx string
 	hasLoop bool
 }
 
-func newScope() *scope { return &scope{vars: map[string]string{}, local: map[string]bool{}} }
+func newScope() *scope {
+	return &scope{vars: map[string]string{}, mods: map[string]string{}, local: map[string]bool{}}
+}
 
 func (s *scope) set(k, v string) { s.vars[k] = v; s.local[k] = true }
 
@@ -224,6 +245,9 @@ func (s *scope) child() *scope {
 	c := newScope()
 	for k, v := range s.vars {
 		c.vars[k] = v
+	}
+	for k, v := range s.mods { // a module is held by a variable and is read like any other variable
+		c.mods[k] = v
 	}
 	c.loopIdx, c.hasLoop = s.loopIdx, s.hasLoop
 	return c
@@ -264,6 +288,31 @@ type evalCtx struct {
 	self      *tmpl               // template whose macros `_self` denotes
 	overrides map[string][][]node // block definitions of the templates that extend this one, most derived first
 	parents   [][]node            // inside a block body: the definitions parent() walks through, nearest first
+	imported  map[string]macroRef // macros this template render brought in through from-imports, by the name they are called by
+}
+
+// macroRef: a macro and the template that defines it
+type macroRef struct {
+	home *tmpl
+	def  nMacroDef
+}
+
+func (w *world) libMacro(lib, name string) (macroRef, bool) {
+	t, ok := w.tmpls[lib]
+	if !ok {
+		return macroRef{}, false
+	}
+	for _, n := range t.body {
+		if m, isDef := n.(nMacroDef); isDef && m.name == name {
+			return macroRef{t, m}, true
+		}
+	}
+	return macroRef{}, false
+}
+
+// callImported renders a macro of another template (generated library macros take no arguments).
+func (c *evalCtx) callImported(r macroRef) (string, bool) {
+	return (&evalCtx{w: c.w, self: r.home}).nodes(r.def.body, newScope())
 }
 
 // evalTemplate renders template t in scope sc. ok=false: the render fails.
@@ -384,6 +433,45 @@ func (c *evalCtx) nodes(ns []node, sc *scope) (string, bool) {
 				}
 			}
 			s, ok := (&evalCtx{w: c.w, self: c.self}).nodes(m.body, msc)
+			if !ok {
+				return "", false
+			}
+			b.WriteString(s)
+		case nImport:
+			if _, ok := c.w.tmpls[n.tmpl]; !ok {
+				return "", false
+			}
+			sc.mods[n.as] = n.tmpl
+			sc.local[n.as] = true
+		case nFromImport:
+			r, ok := c.w.libMacro(n.tmpl, n.name)
+			if !ok {
+				return "", false
+			}
+			if c.imported == nil {
+				c.imported = map[string]macroRef{}
+			}
+			c.imported[n.alias] = r
+		case nCall:
+			r, ok := c.imported[n.name]
+			if !ok {
+				return "", false // not generated: only names the same template from-imported are called
+			}
+			s, ok := c.callImported(r)
+			if !ok {
+				return "", false
+			}
+			b.WriteString(s)
+		case nModCall:
+			lib, ok := sc.mods[n.mod]
+			if !ok {
+				return "", false // not generated
+			}
+			r, ok := c.w.libMacro(lib, n.name)
+			if !ok {
+				return "", false
+			}
+			s, ok := c.callImported(r)
 			if !ok {
 				return "", false
 			}
